@@ -1,4 +1,4 @@
-CONSTANT U <- UQ  Probes <- PQ  AccDict <- Acc
-CONSTANTS NodeIds = {1, 2, 127}  Lens = {0, 1, 4, 5, 6, 255, 256, 257, 300, 301}  Bases = {1, 200}
+CONSTANT U <- UT  Probes <- PQ  AccDict <- Acc
+CONSTANTS NodeIds = {1, 2, 127}  Lens = {0, 1, 2, 3, 4, 5, 6, 7, 254, 255, 256, 257, 299, 300, 301, 512, 1000}  Bases = {1, 200, 77}  ValMode = "b"
 INIT Init
 NEXT Next
